@@ -1,6 +1,7 @@
 CONSTANTS
   Fixed = FALSE
   MaxJumps = 16
+  ResetOnLabel = FALSE
   Dgrams <- DgAsFound
 SPECIFICATION PSpec
 INVARIANTS NoUninit
